@@ -72,6 +72,21 @@ CHECKS["C17"] = dict(
          "are the same rectangular data'.",
     note=TRUST + "Not decided: numpy indexing/argsort semantics; objects built by HDF loaders beyond addcolumn.")
 
+CHECKS["C18"] = dict(
+    category="other", design_ref="DESIGN.md section 3 / C18",
+    technique="writer/reader table extraction from the ast of both sides (format strings, tag sets, dtype selection, "
+              "attribute tables) and agreement / inverse-conversion rules; who-may-rebind rule for h5py attribute managers",
+    text="Static: for each on-disk format the writer's table and the reader's table are extracted from the current "
+         "code and compared: columnfile text (header syntax, one numeric conversion per title, integer titles get "
+         "integer conversions, exponent formats for strains, positional float parsing), columnfile HDF5 (INTS<->int64 in "
+         "both writers, group tag accepted by the reader, whole-dataset read-back, resize on overwrite), parameter files "
+         "(two-field lines, type coercion on every path), grain text (9x >=9 digits UBI row-major, >=6 digits "
+         "translation, every written tag restored through the inverse conversion, state reset), grain HDF5 (same "
+         "attribute tables, inverse conversions, integer-sorted groups), ubi files, sparse frames (attrs/datasets on "
+         "both sides; h5py .attrs never rebound). Necessary conditions of the round trips.",
+    note=TRUST + "Not decided: digit-level precision of particular values, negative zero, overwriting an HDF5 group that "
+         "holds a different set of titles, h5py/numpy exactness (assumed).")
+
 NOT_YET = {}
 
 NOT_APPLICABLE = {
